@@ -10,6 +10,32 @@
    Proof route:  Sat.stable  <-(Ground.ground_stable_iff)->  Cleanup.stable of the ground program
                  <-(adapters of section 2)->  Fold.stableP / Fold.stableQ
                  and Meta/Fold.v (fold_fwd, fold_bwd, fold_restrict_ext).
+
+   Sections
+     1. ground programs up to order / multiplicity of body formulas          (gstable_members)
+     2. adapters Meta/Cleanup.v <-> Meta/Fold.v                              (stableP_iff_gstable, stableQ_iff_gstable)
+     3. grounding: coincidence, concatenation, bodies with the same members  (ground_body_agree, ground_body_app, ...)
+     4. "aux/k does not occur" as a decidable predicate                      (prog_avoids, ground_prog_clean)
+     5. the split of one rule: premises of Meta/Fold.v                       (folded_sound, complete, split_fwd/bwd/inj)
+     6. the theorem                                                          (projection_split_sound[_members|_atom_head])
+     7. the model of projection.py performs such a split                     (project_rule_sound[_known])
+     8. witnesses: a closed instance, and the counterexample for "_"         (module Example)
+
+   Remarks on the hypotheses
+     * The head h is ANY head of the simple fragment (plain atom, #false / constant, safe bound-free choice),
+       not only a plain atom.
+     * [New ++ Rest] only needs the same MEMBERS as B (implied by Permutation): ngo computes
+       rest = [x for x in body if x not in new], which drops every ==-copy of a chosen literal, so
+       new ++ rest is in general not a permutation of a body with duplicate literals.
+     * The second half of the interface condition of the task ("every ti occurs in New") is NOT needed:
+       Sem/Sat.v gives meaning to unsafe rules (all substitutions), and folding is sound regardless.
+       Negative literals and undefined terms need no extra hypothesis either: an instance of the original
+       rule is defined iff both parts are, and the head stays where it is.
+     * For the corollary about the model one extra hypothesis IS needed: the anonymous variable "_" must
+       not occur in the rule. Sem/Sat.v reads TVar "_" as one ordinary variable, ngo (like gringo) reads
+       each "_" as a different variable and never puts it among t1..tk; see
+       Example.anonymous_variable_counterexample for a split performed by the model that is not a
+       conservative extension under the reading of Sem/Sat.v.
    Axiom used: Classical_Prop.classic (through Meta/Fold.v, Meta/Cleanup.v, Link/Ground.v). *)
 From Coq Require Import List String ZArith Bool Classical Permutation Arith Lia.
 From NGO Require Import Syntax.Ast Sem.Sym Sem.Sat Link.Ground.
@@ -1145,7 +1171,8 @@ Proof.
   apply stmt_avoids_of_predicates; [exact (F st Hst)|]. intros q Hq ->. apply N. exact (K st p Hst Hq).
 Qed.
 
-(* ---- 7.4 the rule splitting performed by Projection.project_rule is a conservative extension ---- *)
+(* ---- 7.4 the rule splitting performed by Projection.project_rule is a conservative extension
+        (any head of the simple fragment) ---- *)
 Section ModelCorollary.
 Variable sym_lt : sym -> sym -> Prop.
 
